@@ -138,7 +138,7 @@ def extract_cases(tlc_out, dest, fam, start_id, extra_fields=None):
             if not m:
                 continue
             c = json.loads(json.loads(m.group(1))[5:])
-            if "bytes" in c or "toks" in c:
+            if "bytes" in c or "toks" in c or c.get("mode") == "date":
                 rec = dict(c, id=start_id + n, fam=fam)
             else:
                 rec = {"id": start_id + n, "fam": fam, "ast": c["ast"], "inp": c["inp"], "binds": fix_binds(c.get("binds", [])), "exp": c.get("exp")}
@@ -275,6 +275,8 @@ def match_known(known, ev, verdict):
         if kind == "dev" and verdict == "dev:" + sig.get("dev"):
             return k
         if kind == "program" and src == sig.get("program") and (sig.get("verdict") in (None, verdict)):
+            return k
+        if kind == "verdict" and verdict == sig.get("verdict"):
             return k
         if kind == "timeout" and out.get("o") == "timeout" and sig.get("contains") in src:
             return k
